@@ -285,21 +285,16 @@ func ruleG1b(c *Ctx) *RuleResult {
 			what := "the rotation is reachable while the open segment is shorter than SegmentMinDuration (a parameter change forces the cut)"
 			// cut the "duration reached" edges
 			cut := map[edge]bool{}
-			for _, ci := range ifsOn(fn, func(v ssa.Value) bool {
+			for _, ci := range ifsOnV(fn, func(v ssa.Value) bool {
 				bo, ok := v.(*ssa.BinOp)
 				if !ok || (bo.Op != token.GEQ && bo.Op != token.LSS && bo.Op != token.GTR && bo.Op != token.LEQ) {
 					return false
 				}
 				return mentionsField(bo, minDur, 0)
 			}) {
-				bo := stripNot(ci.If.Cond).(*ssa.BinOp)
+				bo := ci.Val.(*ssa.BinOp)
 				reached := bo.Op == token.GEQ || bo.Op == token.GTR
-				idx := 0
-				if reached != ci.Pol {
-					idx = 1
-				}
-				b := ci.If.Block()
-				cut[edge{b.Index, b.Succs[idx].Index}] = true
+				cut[ci.edgeWhen(reached)] = true
 			}
 			if len(cut) == 0 {
 				r.undecided("G1b: no comparison with segmentMinDuration in %s: form not known to the rule", FuncName(fn))
@@ -545,7 +540,7 @@ func ruleG16b(c *Ctx) *RuleResult {
 		n++
 		key := fmt.Sprintf("processSegment|anchor#%d", n)
 		what := "setNTP runs for every dated segment, not only while the track processors are being created"
-		once := ifsOn(fn, func(v ssa.Value) bool {
+		once := ifsOnV(fn, func(v ssa.Value) bool {
 			bo, ok := v.(*ssa.BinOp)
 			if !ok || bo.Op != token.EQL {
 				return false
@@ -567,6 +562,33 @@ func ruleG16b(c *Ctx) *RuleResult {
 func ruleK7(c *Ctx) *RuleResult {
 	r := &RuleResult{Floor: 1, FloorWhat: "receives of a stream's ended signal"}
 	endedF := c.Field("", "clientStreamDownloader", "chEnded")
+	if endedF == nil {
+		// renamed: the one channel field of the stream downloader that its own methods close
+		var cands []*types.Var
+		for _, fn := range c.Funcs {
+			if !InRootPkg(fn) || fn.Signature.Recv() == nil || namedOf(fn.Signature.Recv().Type()) == nil || namedOf(fn.Signature.Recv().Type()).Obj().Name() != "clientStreamDownloader" {
+				continue
+			}
+			allInstrs(fn, func(in ssa.Instruction) {
+				if call, ok := in.(*ssa.Call); ok {
+					if bi, ok := call.Call.Value.(*ssa.Builtin); ok && bi.Name() == "close" {
+						if f, _ := loadedField(call.Call.Args[0]); f != nil && c.fieldOwner(f) == "clientStreamDownloader" {
+							dup := false
+							for _, x := range cands {
+								dup = dup || x == f
+							}
+							if !dup {
+								cands = append(cands, f)
+							}
+						}
+					}
+				}
+			})
+		}
+		if len(cands) == 1 {
+			endedF = cands[0]
+		}
+	}
 	run := c.Method("", "clientPrimaryDownloader", "run")
 	if endedF == nil || run == nil {
 		r.undecided("clientStreamDownloader.chEnded / clientPrimaryDownloader.run not found")
@@ -739,7 +761,7 @@ func ruleF7f(c *Ctx) *RuleResult {
 				}
 				return false
 			}
-			conds := ifsOn(fn, isVODTest)
+			conds := ifsOnV(fn, isVODTest)
 			// the test may be one operand of a `&&` that a switch case evaluates into a phi: dominating facts
 			byFact := false
 			for _, f := range factsAt(u.Block()) {
